@@ -153,6 +153,9 @@ inductive Stmt (τ : Type) where
   | setFlag (f : Name) (b : Bool)
   | scope (name : Name) (untilN : Option (NExpr τ)) (body : List (Stmt τ))
   | spawn (scope : Name) (task : Name) (prog : List (Stmt τ)) (after : Option τ) (at_ : Option τ) (volatile : Bool)
+  /-- library: `scope.do(activity)` for a root activity of `usim.run(.., till=T)`: the task's code is the program's
+  root activity number `idx` -/
+  | spawnRoot (scope : Name) (idx : Nat) (prog : List (Stmt τ))
   | cancel (task : Name) (tok : Int)
   | awaitTask (task : Name)
   | awaitScope (scope : Name)
